@@ -3134,7 +3134,7 @@ namespace Clipper2Lib {
       else
         op2 = op2->next;
     }
-    if (path.size() == 3 && IsVerySmallTriangle(*op2)) return false;
+    if (!isOpen && path.size() == 3 && IsVerySmallTriangle(*op2)) return false;
     return true;
   }
 
